@@ -234,6 +234,23 @@ def body():
                                     chk.count((sig, "limit", nm, k), True)
                                     if e_ > bound:
                                         fail("limit:maxwell.%s" % nm, "far field differs from r exp(-ikr) potential(r x) at r = 400 D by %.3g (bound %.3g, k = %s)" % (e_, bound, k))
+                    # ---- normals of one domain swapped: the double-layer type kernels take the normal of the element with its multiplier
+                    doms = sorted(set(int(x) for x in grid.domain_indices))
+                    if scalar and len(doms) > 1 and n_sp % 2 == 0:
+                        ob_ = [o for o in obs if c09.sig_of(o) == sig][0]
+                        sps = rs.make_space(api, grid, ob_, swapped=[doms[-1]])
+                        fs_ = api.GridFunction(sps, coefficients=c)
+                        els_s, Ys, WJs, Ns, Bs = geometry(grid, sps)
+                        dens_s = density(sps, c, els_s, Bs)
+                        save = (els, Y, WJ, N, B, dens)
+                        els, Y, WJ, N, B, dens = els_s, Ys, WJs, Ns, Bs, dens_s
+                        try:
+                            cmp("potential.laplace.double_layer [swapped normals]", pot.laplace.double_layer(sps, X).evaluate(fs_), ksum(dl(0.0))[None, :])
+                            cmp("potential.helmholtz.double_layer [swapped normals] k=%s" % ks[1], pot.helmholtz.double_layer(sps, X, ks[1]).evaluate(fs_), ksum(dl(ks[1]))[None, :])
+                            fdl = np.array([sum((-1j * ks[1] * xh.dot(N[n_]) * np.exp(-1j * ks[1] * xh.dot(Y[n_])) / (4 * np.pi) * dens[n_][0] * WJ[n_]).sum() for n_ in range(len(els))) for xh in dirs.T])
+                            cmp("far_field.helmholtz.double_layer [swapped normals] k=%s" % ks[1], np.asarray(far.helmholtz.double_layer(sps, dirs, ks[1]).evaluate(fs_)).ravel(), fdl)
+                        finally:
+                            els, Y, WJ, N, B, dens = save
                     # ---- (b) translation phase law (first and last space of each kind)
                     if n_sp in (0, len(picks) - 1):
                         t = np.array([3.0, -6.0, 1.0])
